@@ -22,7 +22,8 @@ RULE = ("probe = (pair in a random spelling, large, mode, very_readable) with op
         "the probe (same text other backgrounds, same background other texts, same pair every other setting, other spellings of the same colours, bulk "
         "lists containing the probe, in-process CLI runs on sheets containing the pair, show=True/save_report=True calls, noise); (c) at every "
         "position of a bulk list; (d) repeated on one ColorPair object; (e) from 8 threads x 6 operations with switch interval 1e-5 and a "
-        "sys.monitoring LINE callback that yields inside cm_colors code; vars() of the pair and its colours before/after make_readable. "
+        "sys.monitoring LINE callback that yields inside cm_colors code, every round's pool holding unrepairable mode-2 pairs, long mode-1 chains and "
+        "pairs whose result the chroma descent decides; vars() of the pair and its colours before/after make_readable. "
         "Non-trivial = probe whose pair needs fixing; distinct = probe x history.")
 ASSUMPTIONS = ["thread schedules are sampled, not enumerated (distinct call/return orders are counted in the evidence)",
                "module-state drift (fingerprint of cm_colors.* module globals, function defaults, functools caches) is evidence, not a violation"]
